@@ -586,16 +586,27 @@ func r013(c *Ctx) {
 		}
 		core.Instrs(fn, func(b *ssa.BasicBlock, _ int, ins ssa.Instruction) {
 			ci, ok := ins.(ssa.CallInstruction)
-			if !ok || ci.Common().StaticCallee() != nil || ci.Common().IsInvoke() {
+			if !ok || ci.Common().IsInvoke() {
 				return
 			}
-			cs, ok := ci.Common().Value.Type().Underlying().(*types.Signature)
-			if !ok || sig == nil || !core.SigIdentical(cs, sig) {
-				return
+			var ctxArg ssa.Value
+			if h := ci.Common().StaticCallee(); h != nil {
+				// the operand is invoked by a helper that is handed the operand and the context to run it with
+				pi := operandCtxParam(h, sig)
+				if pi < 0 || pi >= len(ci.Common().Args) {
+					return
+				}
+				ctxArg = ci.Common().Args[pi]
+			} else {
+				cs, ok := ci.Common().Value.Type().Underlying().(*types.Signature)
+				if !ok || sig == nil || !core.SigIdentical(cs, sig) {
+					return
+				}
+				ctxArg = ci.Common().Args[0]
 			}
 			nSites++
 			cover[role]++
-			call := freshCallOf(ci.Common().Args[0], fresh)
+			call := freshCallOf(ctxArg, fresh)
 			okk := call != nil
 			why := "the operand is invoked with the caller's context and therefore with the visited set shared with the other operands"
 			if okk && role == "and" && !sameCycle(call.Block(), b) {
@@ -1012,6 +1023,36 @@ func r016(c *Ctx) {
 	if n < 2 {
 		r.Undecide("R01.6", "", "skipDirect=true sites", "", fmt.Sprintf("%d sites found, floor 2 (subject-set expansion, computed-subject-set shortcut)", n))
 	}
+}
+
+// operandCtxParam: h is a helper of the repository that invokes a CheckFunc it is handed (a parameter) with a
+// context it is handed (another parameter); the index of that context parameter, or -1.
+func operandCtxParam(h *ssa.Function, sig *types.Signature) int {
+	if h == nil || h.Blocks == nil || sig == nil || core.FuncPkg(h) == nil || !core.IsKeto(core.FuncPkg(h)) {
+		return -1
+	}
+	res := -1
+	core.Instrs(h, func(_ *ssa.BasicBlock, _ int, ins ssa.Instruction) {
+		ci, ok := ins.(ssa.CallInstruction)
+		if !ok || ci.Common().StaticCallee() != nil || ci.Common().IsInvoke() || len(ci.Common().Args) == 0 {
+			return
+		}
+		if _, isPar := ci.Common().Value.(*ssa.Parameter); !isPar {
+			return
+		}
+		cs, ok := ci.Common().Value.Type().Underlying().(*types.Signature)
+		if !ok || !core.SigIdentical(cs, sig) {
+			return
+		}
+		if par, isPar := ci.Common().Args[0].(*ssa.Parameter); isPar {
+			for i, q := range h.Params {
+				if q == par {
+					res = i
+				}
+			}
+		}
+	})
+	return res
 }
 
 // memberAndLeave: the block answers "is a member" and returns.
